@@ -3002,6 +3002,10 @@ HPgetdiskblock(filerec_t *file_rec, int32 block_size, int moveto)
     if (file_rec == NULL || block_size < 0)
         HGOTO_ERROR(DFE_ARGS, FAIL);
 
+    /* offsets and lengths are signed 32-bit fields in the file: the block must end at or below 2^31-1 */
+    if (block_size > INT32_MAX - file_rec->f_end_off)
+        HGOTO_ERROR(DFE_EXCEEDMAX, FAIL);
+
 #ifdef DISKBLOCK_DEBUG
     block_size += (DISKBLOCK_HSIZE + DISKBLOCK_TSIZE);
     /* get the offset of the allocated block */
